@@ -308,6 +308,9 @@ class Transformer(ast.NodeTransformer):
 
     def visit_Call(self, node):
         self.generic_visit(node)
+        for k, a in enumerate(node.args):
+            if isinstance(a, ast.Starred):
+                node.args[k] = ast.Starred(value=_call("star", a.value), ctx=ast.Load())
         f = node.func
         if isinstance(f, ast.Attribute) and f.attr == "join" and len(node.args) == 1 and not node.keywords:
             return ast.copy_location(_call("join", f.value, node.args[0]), node)
